@@ -71,7 +71,16 @@ Example C11_tables_as_read :
      (Str "BNode", None)] /\
   shacl_min_occurs_none = [Str "*"; Str "?"] /\ shacl_min_occurs_eq = Str "+" /\ shacl_min_occurs_eq_val = 1%Z /\
   shacl_max_occurs_none = [Str "*"; Str "+"] /\ shacl_max_occurs_eq = Str "?" /\ shacl_max_occurs_eq_val = 1%Z /\
-  shexc_card_symbols = [Str "+"; Str "*"; Str "?"] /\ c_ONE_TO_MANY = c_POSITIVE_CLOSURE.
+  shexc_card_symbols = [Str "+"; Str "*"; Str "?"] /\ c_ONE_TO_MANY = c_POSITIVE_CLOSURE /\
+  (* the sentinels the shexing stage assigns (model/statement.py) are the ones the ShExC serialiser
+     tests for (io/shex/formater/consts.py) *)
+  [c_fmt_POSITIVE_CLOSURE; c_fmt_KLEENE_CLOSURE; c_fmt_OPT_CARDINALITY] =
+  [c_POSITIVE_CLOSURE; c_KLEENE_CLOSURE; c_OPT_CARDINALITY] /\
+  (* the keyword list of tune_token, as Model/Tokens.v spells it *)
+  shexc_macro_tokens = [c_IRI_ELEM_TYPE; c_BNODE_ELEM_TYPE; c_NONLITERAL_ELEM_TYPE] /\
+  shexc_card_omitted = 1%Z /\ c_INVERSE_SENSE_SHEXC = Str "^" /\
+  shacl_exactly_one_min = 1%Z /\ shacl_exactly_one_max = 1%Z /\
+  shacl_uri_schemes = [Str "http://"; Str "https://"].
 Proof. repeat split. Qed.
 
 (** ** non-vacuity *)
